@@ -126,6 +126,20 @@ def check_pair(res, t, kind, position, X1, X2, inp, site):
 def check_objects(res, rng, t, reps):
     import numpy as np
     site0 = dict(module='tools.g3c')
+    # repaired defect 18, deterministically: antiparallel planes whose normal is parallel to the reference direction of the half-turn branch
+    # (the plane through (0,2,0), (-3,-3,-2), (-1,3,2) has the bivector e12 + e13 + e23), and one in general position
+    for pl_pts in ([(0, 2, 0), (-3, -3, -2), (-1, 3, 2)], [(1, 0, 0), (0, 1, 0), (0, 0, 1)], [(1, 0, 2), (0, 1, -1), (2, 2, 1)]):
+        ptsd = [float(a) * t.e1 + float(b) * t.e2 + float(c) * t.e3 for a, b, c in pl_pts]
+        Xa = build('plane', ptsd, t).normal()
+        Vd = t.generate_translation_rotor(1.0 * t.e1 + 1.0 * t.e2 - 3.0 * t.e3)
+        Xb = -(Vd * Xa * ~Vd).normal()
+        if near(Xb, -Xa, 1.0, 1e-9):
+            continue
+        sited = dict(site0, kind='plane', position='antiparallel')
+        inpd = dict(sited, points=[list(p) for p in pl_pts], X1=Xa.value.tolist(), X2=Xb.value.tolist())
+        res.case(('pair-fixed', 'plane', 'antiparallel', str(pl_pts)), nontrivial=True)
+        res.count('plane:antiparallel-fixed')
+        check_pair(res, t, 'plane', 'antiparallel', Xa, Xb, inpd, sited)
     for kind in KINDS:
         for _ in range(reps):
             pts, X1 = make_object(rng, t, kind)
